@@ -63,13 +63,19 @@ func xfLinks(bs *blockSet, es []xfEntry, w string) []pbLink {
 	return xfLinksWith(bs, es, w, bs.dir)
 }
 
+// rawLeaves: file entries are single raw-codec blocks (what `car create` makes of a small file)
+// instead of dag-pb UnixFS file nodes; set per run by form 4.
 func xfLinksWith(bs *blockSet, es []xfEntry, w string, mkDir func([]pbLink) pbLink) []pbLink {
 	var out []pbLink
 	for _, e := range es {
 		var l pbLink
 		switch e.K {
 		case "file":
-			l = bs.file([]byte("DATA"))
+			if bs.rawLeaves {
+				l = pbLink{Cid: bs.add(cid.Raw, []byte("DATA")), Tsize: 4}
+			} else {
+				l = bs.file([]byte("DATA"))
+			}
 		case "link":
 			l = bs.symlink(e.To.str(w))
 		case "dir":
@@ -171,6 +177,7 @@ func runExtractCase(carBin string, c *xfCase, base string, form int) (string, st
 	if form == 3 { // every directory, the root included, is a HAMT shard
 		mkDir = bs.hamtDir
 	}
+	bs.rawLeaves = form == 4
 	var roots []cid.Cid
 	hasFileRoot := false
 	for _, e := range c.Arch {
@@ -261,12 +268,12 @@ func runExtractCase(carBin string, c *xfCase, base string, form int) (string, st
 		}
 	}
 	realErr := err != nil && !strings.Contains(string(outb), "no files extracted")
-	if realErr != c.Aborted && (form == 0 || form == 3) {
+	if realErr != c.Aborted && (form == 0 || form >= 3) {
 		drift = append(drift, fmt.Sprintf("exit error %v (%s), model aborted=%v", err, strings.TrimSpace(string(outb)), c.Aborted))
 	}
 	sort.Strings(drift)
 	ds := ""
-	if len(drift) > 0 && (form == 0 || form == 3) {
+	if len(drift) > 0 && (form == 0 || form >= 3) {
 		ds = strings.Join(drift, "; ")
 	}
 	return "", "", ds
@@ -303,7 +310,7 @@ func runExtractReplay(args []string) int {
 				}
 				hs := fnv.New32a()
 				hs.Write([]byte(canon(c.Arch) + canon(c.Pre)))
-				for form := 0; form < 4; form++ {
+				for form := 0; form < 5; form++ {
 					if form == 1 && (len(c.Arch) < 2 || hasFroot(&c)) {
 						continue
 					}
@@ -313,10 +320,16 @@ func runExtractReplay(args []string) int {
 					if form == 3 {
 						rep.count("hamt_encoded_runs", 1)
 					}
+					if form == 4 && !allHamt && hs.Sum32()%4 != 1 {
+						continue // raw-leaf files: every fourth archive
+					}
+					if form == 4 {
+						rep.count("raw_leaf_runs", 1)
+					}
 					cls, msg, drift := runExtractCase(carBin, &c, base, form)
 					rep.eval(canon(c.Arch)+canon(c.Pre)+fmt.Sprint(form), true)
 					if cls != "" {
-						rep.violate("extract/"+cls+"/"+kindsOf(&c), fmt.Sprintf("archive [%s] (%s roots) pre %s: %s", shapeOf(c.Arch), map[int]string{0: "one", 1: "two", 2: "one, output dir '.'", 3: "one, HAMT-sharded directories"}[form], canon(c.Pre), msg),
+						rep.violate("extract/"+cls+"/"+kindsOf(&c), fmt.Sprintf("archive [%s] (%s roots) pre %s: %s", shapeOf(c.Arch), map[int]string{0: "one", 1: "two", 2: "one, output dir '.'", 3: "one, HAMT-sharded directories", 4: "one, raw-leaf files"}[form], canon(c.Pre), msg),
 							map[string]any{"family": "extract", "case": c, "form": form})
 					}
 					if drift != "" {
